@@ -298,7 +298,7 @@ def run(tier):
             for req in (["{}"], ["{}", "{}Assign"], ["{}Assign"]):
                 progs.append(build_generic("p%05d" % len(progs), op, bl, br, [r.format(op[0]) for r in req], True))
     out = common.Outcome(PID)
-    extra = e3_extras.summary(e3_extras.c09_kernels(out))
+    extra = e3_extras.summary(e3_extras.safe(e3_extras.c09_kernels, out))
     return e1.finish(
         PID, tier, progs, t0, outcome=out, extra=extra,
         rule="one Kani harness per (operator, base impl form, Rhs = Self | other type, requested set): operand payloads symbolic; every generated form is called; "
